@@ -555,6 +555,10 @@ def run(R):
         R.check(len(fm) + len(fmi) == 1, 'C04.R6', 'trailers-first', site(b), 'from_header_map consulted: %d call(s), %d use(s) as a function value' % (len(fm), len(fmi)))
 
     # ---------------------------------------------------------------- R7 h2 table
+    R.describe('C04.R8', 'the client reads the status a peer wrote into the response headers (Trailers-Only) unconditionally: no test on the body or the HTTP status stands in front of Status::from_header_map in create_response')
+    with R.guard('C04.R8'):
+        check_trailers_only_read(R, tonic, 'C04.R8')
+
     R.describe('C04.R7', 'Status::code_from_h2 maps HTTP/2 reasons as spec/h2_reason.json; every h2 error conversion routes through it; to_h2_error: Cancelled -> CANCEL else INTERNAL_ERROR')
     with R.guard('C04.R7'):
         h2 = spec('h2_reason')
